@@ -17,8 +17,8 @@ Definition out_eqb (a b : out) : bool :=
   end.
 
 Definition snap_eqb (a b : snap) : bool :=
-  let '(p1, u1, b1) := a in let '(p2, u2, b2) := b in
-  omap_eq p1 p2 && omap_eq u1 u2 && obytes_eq b1 b2.
+  let '(p1, u1, b1, r1) := a in let '(p2, u2, b2, r2) := b in
+  omap_eq p1 p2 && omap_eq u1 u2 && obytes_eq b1 b2 && list_eqb recip_eq r1 r2.
 
 Inductive obj_case := OCase (k : kind) (ops : list op) (trace : list (out * snap)).
 
